@@ -425,6 +425,26 @@ example : nest [] [Ex.idt "b", Ex.lbrace, Ex.idt "c", Ex.colon, Ex.idt "d", Ex.s
 example : (openToks [⟨[Ex.idt "a", Ex.lbrace, Ex.rbrace], ⟨.mediaSym, cps "@media", 0⟩, [Ex.sp, Ex.idt "print"], Ex.lbrace⟩,
       ⟨[], ⟨.mediaSym, cps "@media", 0⟩, [], Ex.lbrace⟩] [Ex.idt "b"]).length = 10 := by decide
 
+/-- **T4.4, certified form** (`Model/StructCut.lean`): a certificate `c` divides a truncated sheet into
+complete statements `c.s₁` and the construct `c.o` that is open at the end of input — an `@media` rule with
+its complete units and, recursively, the open construct inside it; a style rule with its complete
+declarations; or an undivided rest —, `Cut.ok` decides every hypothesis of the theorems above (unit shapes,
+selector / media query shapes, well nested contents), and `Cut.predict` is the rule list: all rules of the
+complete statements, then the open rules closed at EOF with exactly their complete inner rules /
+declarations, to any depth.  The driver request `cut` builds a certificate for the token list of a REAL
+truncated sheet, evaluates `Cut.ok` and answers with `Cut.predict`; the harness compares it with the DOM of
+`parseString` (phase `truncate`, kinds `cut:*`). -/
+theorem truncation_certified (O : Oracle) (M : List Cps) (c : Cut) (h : c.ok = true) :
+    (sheetLoop O M {} c.toks).rules = c.predict O M :=
+  Cut.predict_sound O M c h
+
+-- non-vacuity: the tokens of `a{} @media print{b{} @media print{c{d:e;f` get a certificate of shape
+-- media > media > style with one complete unit at each level, and it passes the check
+example : ((findCut [Ex.idt "a", Ex.lbrace, Ex.rbrace, ⟨.mediaSym, cps "@media", 0⟩, Ex.sp, Ex.idt "print", Ex.lbrace,
+      Ex.idt "b", Ex.lbrace, Ex.rbrace, ⟨.mediaSym, cps "@media", 0⟩, Ex.sp, Ex.idt "print", Ex.lbrace,
+      Ex.idt "c", Ex.lbrace, Ex.idt "d", Ex.colon, Ex.idt "e", Ex.semi, Ex.idt "f", Ex.eof]).map
+      fun c => (c.ok, c.o.shape, c.s₁.length)) = some (true, "media>media>style", 1) := by decide
+
 /-! ## the model's only fuel (nesting depth of `@media` in `@media`) never runs out -/
 
 /-- noFuel: more fuel than tokens is always enough — the result does not depend on the amount, and it is
